@@ -132,6 +132,43 @@ func (f *faultFile) Write(b []byte) (int, error) {
 	}
 	return f.File.Write(b)
 }
+// (calls the unchanged copy never makes; a copy that starts making them gets faults there too)
+func (f *faultFile) Seek(o int64, w int) (int64, error) {
+	if h, _, _ := f.plan.hit(f.tag + ".Seek"); h {
+		return 0, errInjected
+	}
+	return f.File.Seek(o, w)
+}
+func (f *faultFile) ReadAt(b []byte, o int64) (int, error) {
+	if h, _, _ := f.plan.hit(f.tag + ".ReadAt"); h {
+		return 0, errInjected
+	}
+	return f.File.ReadAt(b, o)
+}
+func (f *faultFile) WriteAt(b []byte, o int64) (int, error) {
+	if h, _, _ := f.plan.hit(f.tag + ".WriteAt"); h {
+		return 0, errInjected
+	}
+	return f.File.WriteAt(b, o)
+}
+func (f *faultFile) WriteString(s string) (int, error) {
+	if h, _, _ := f.plan.hit(f.tag + ".WriteString"); h {
+		return 0, errInjected
+	}
+	return f.File.WriteString(s)
+}
+func (f *faultFile) Truncate(n int64) error {
+	if h, _, _ := f.plan.hit(f.tag + ".Truncate"); h {
+		return errInjected
+	}
+	return f.File.Truncate(n)
+}
+func (f *faultFile) Sync() error {
+	if h, _, _ := f.plan.hit(f.tag + ".Sync"); h {
+		return errInjected
+	}
+	return f.File.Sync()
+}
 func (f *faultFile) Stat() (os.FileInfo, error) {
 	if h, _, _ := f.plan.hit(f.tag + ".Stat"); h {
 		return nil, errInjected
